@@ -65,9 +65,33 @@ type outT struct {
 }
 
 type caseT struct {
-	Cfg cfgT     `json:"cfg"`
-	Evs []evT    `json:"events"`
-	Om  [][]outT `json:"outcomes"` // [event][destination]
+	Cfg  cfgT     `json:"cfg"`
+	Evs  []evT    `json:"events"`
+	Om   [][]outT `json:"outcomes"` // [event][destination]
+	Hist *histT   `json:"-"`        // set when this case is one segment of a retune history
+}
+
+// retuneT: at run time, the exported Level field of one FilteredLevelWriter of the already
+// constructed writer is assigned.  Dest = -1: a filter among the wrappers around the whole
+// writer; otherwise the destination's own chain.  Wrap = index into that chain.
+type retuneT struct {
+	Dest int `json:"dest"`
+	Wrap int `json:"wrap"`
+	Min  int `json:"min"`
+}
+
+type segT struct {
+	Retunes []retuneT `json:"set_level_before"` // applied before the first event of the segment
+	Evs     []evT     `json:"events"`
+	Om      [][]outT  `json:"outcomes"`
+}
+
+// histT: a writer constructed once from Cfg, then used over several segments; between segments
+// filter levels are changed through the exported field.  Seg = the segment a case was cut from.
+type histT struct {
+	Cfg  cfgT   `json:"constructed_from"`
+	Segs []segT `json:"segments"`
+	Seg  int    `json:"this_case_is_segment"`
 }
 
 // one observed action
@@ -139,7 +163,12 @@ func (f *fakeLevel) WriteLevel(l zerolog.Level, p []byte) (int, error) {
 	return f.rt.call(f.id, "level", l, p)
 }
 
-func wrapChain(ws []wrapT, inner io.Writer, hide bool) io.Writer {
+type filterHandle struct {
+	dest, wrap int
+	f          *zerolog.FilteredLevelWriter
+}
+
+func wrapChain(ws []wrapT, inner io.Writer, hide bool, dest int, reg *[]filterHandle) io.Writer {
 	for i := len(ws) - 1; i >= 0; i-- {
 		switch ws[i].Kind {
 		case "sync":
@@ -155,13 +184,17 @@ func wrapChain(ws []wrapT, inner io.Writer, hide bool) io.Writer {
 			if !ok {
 				lw = zerolog.LevelWriterAdapter{Writer: inner}
 			}
-			inner = &zerolog.FilteredLevelWriter{Writer: lw, Level: zerolog.Level(ws[i].Min)}
+			f := &zerolog.FilteredLevelWriter{Writer: lw, Level: zerolog.Level(ws[i].Min)}
+			if reg != nil {
+				*reg = append(*reg, filterHandle{dest, i, f})
+			}
+			inner = f
 		}
 	}
 	return inner
 }
 
-func buildWriter(c cfgT, rt *runtimeT) io.Writer {
+func buildWriter(c cfgT, rt *runtimeT, reg *[]filterHandle) io.Writer {
 	ds := make([]io.Writer, len(c.Dests))
 	for i, d := range c.Dests {
 		var leaf io.Writer
@@ -170,7 +203,7 @@ func buildWriter(c cfgT, rt *runtimeT) io.Writer {
 		} else {
 			leaf = &fakeLevel{i, rt}
 		}
-		ds[i] = wrapChain(d.Wraps, leaf, false)
+		ds[i] = wrapChain(d.Wraps, leaf, false, i, reg)
 	}
 	var body io.Writer
 	if c.Kind == "multi" {
@@ -180,7 +213,7 @@ func buildWriter(c cfgT, rt *runtimeT) io.Writer {
 	} else {
 		body = io.Discard
 	}
-	return wrapChain(c.Wraps, body, c.Hide)
+	return wrapChain(c.Wraps, body, c.Hide, -1, reg)
 }
 
 func classify(err error) (string, int) {
@@ -226,12 +259,17 @@ var stderrFile *os.File
 var stderrOff int64
 
 // runCase runs the case on the real code; returns the per-event traces.
-func runCase(c *Ctx, cs *caseT) [][]actT {
+func runCase(c *Ctx, cs *caseT) [][]actT { return runCaseHooked(c, cs, nil) }
+
+// runCaseHooked: before(k, filters) runs before logging call k and may assign the Level field of
+// the FilteredLevelWriters the writer was constructed with.
+func runCaseHooked(c *Ctx, cs *caseT, before func(k int, filters []filterHandle)) [][]actT {
 	for i := range cs.Evs {
 		cs.Evs[i].ref = refBytes(cs.Evs[i])
 	}
 	rt := &runtimeT{om: cs.Om}
-	w := buildWriter(cs.Cfg, rt)
+	var filters []filterHandle
+	w := buildWriter(cs.Cfg, rt, &filters)
 	l := zerolog.New(w).Level(zerolog.Level(-128))
 	oldH := zerolog.ErrorHandler
 	oldStderr := os.Stderr
@@ -249,6 +287,9 @@ func runCase(c *Ctx, cs *caseT) [][]actT {
 	for k, e := range cs.Evs {
 		rt.k = k
 		rt.trace = nil
+		if before != nil {
+			before(k, filters)
+		}
 		panicked, pv := emitEvent(&l, e)
 		tr := rt.trace
 		if !cs.Cfg.Handler {
@@ -406,7 +447,133 @@ func caseJSON(cs *caseT, obs [][]actT) map[string]interface{} {
 			}
 		}
 	}
-	return map[string]interface{}{"cfg": cs.Cfg, "events": cs.Evs, "reference_bytes": refs, "outcomes": cs.Om, "observed": obs}
+	m := map[string]interface{}{"cfg": cs.Cfg, "events": cs.Evs, "reference_bytes": refs, "outcomes": cs.Om, "observed": obs}
+	if cs.Hist != nil {
+		m["history"] = cs.Hist
+		m["note"] = "the writer was constructed ONCE from history.constructed_from and used for all segments in order; before each segment the exported Level field of the listed FilteredLevelWriters was assigned. cfg above = the construction with the filter levels in force during this segment; events/outcomes/observed = this segment only"
+	}
+	return m
+}
+
+// ---------------------------------------------------------------- retune histories
+
+func cloneCfg(c cfgT) cfgT {
+	o := c
+	o.Wraps = append([]wrapT{}, c.Wraps...)
+	o.Dests = make([]destT, len(c.Dests))
+	for i, d := range c.Dests {
+		o.Dests[i] = destT{Leaf: d.Leaf, Wraps: append([]wrapT{}, d.Wraps...)}
+	}
+	return o
+}
+
+// filterSlots lists every FilteredLevelWriter of a configuration as (dest, wrap).
+func filterSlots(c cfgT) [][2]int {
+	var out [][2]int
+	for i, w := range c.Wraps {
+		if w.Kind == "filtered" {
+			out = append(out, [2]int{-1, i})
+		}
+	}
+	for d, ds := range c.Dests {
+		for i, w := range ds.Wraps {
+			if w.Kind == "filtered" {
+				out = append(out, [2]int{d, i})
+			}
+		}
+	}
+	return out
+}
+
+// runHistory runs all segments on ONE constructed writer and cuts the run into one case per
+// segment whose cfg carries the filter levels in force during it.  The property (and the model)
+// say what a writer with those levels does with the segment's events; that the levels were
+// reached by assignment rather than at construction must make no difference.
+func runHistory(c *Ctx, h *histT) ([]*caseT, [][][]actT) {
+	flat := &caseT{Cfg: h.Cfg}
+	start := map[int]int{}
+	for s, sg := range h.Segs {
+		start[len(flat.Evs)] = s
+		flat.Evs = append(flat.Evs, sg.Evs...)
+		flat.Om = append(flat.Om, sg.Om...)
+	}
+	obs := runCaseHooked(c, flat, func(k int, filters []filterHandle) {
+		s, ok := start[k]
+		if !ok {
+			return
+		}
+		for _, rt := range h.Segs[s].Retunes {
+			for _, f := range filters {
+				if f.dest == rt.Dest && f.wrap == rt.Wrap {
+					f.f.Level = zerolog.Level(rt.Min)
+				}
+			}
+		}
+	})
+	var cases []*caseT
+	var obss [][][]actT
+	eff := cloneCfg(h.Cfg)
+	at := 0
+	for s, sg := range h.Segs {
+		for _, rt := range sg.Retunes {
+			if rt.Dest < 0 {
+				eff.Wraps[rt.Wrap].Min = rt.Min
+			} else {
+				eff.Dests[rt.Dest].Wraps[rt.Wrap].Min = rt.Min
+			}
+		}
+		hh := *h
+		hh.Seg = s
+		cs := &caseT{Cfg: cloneCfg(eff), Evs: flat.Evs[at : at+len(sg.Evs)], Om: sg.Om, Hist: &hh}
+		cases = append(cases, cs)
+		obss = append(obss, obs[at:at+len(sg.Evs)])
+		at += len(sg.Evs)
+	}
+	return cases, obss
+}
+
+// genHistory: a random configuration with at least one filter, 2-4 segments, 1-2 level
+// assignments before each later segment.
+func genHistory(r *Rng) *histT {
+	var base *caseT
+	for {
+		base = genCase(r)
+		if len(filterSlots(base.Cfg)) > 0 {
+			break
+		}
+	}
+	h := &histT{Cfg: base.Cfg}
+	slots := filterSlots(base.Cfg)
+	nseg := 2 + r.Intn(3)
+	for s := 0; s < nseg; s++ {
+		more := genCase(r)
+		sg := segT{Retunes: []retuneT{}}
+		if s > 0 {
+			for j := 0; j < 1+r.Intn(2); j++ {
+				sl := slots[r.Intn(len(slots))]
+				sg.Retunes = append(sg.Retunes, retuneT{Dest: sl[0], Wrap: sl[1], Min: c14levels[r.Intn(len(c14levels))]})
+			}
+		}
+		D := len(base.Cfg.Dests)
+		for k, e := range more.Evs {
+			if k >= 4 {
+				break
+			}
+			sg.Evs = append(sg.Evs, e)
+			row := make([]outT, D)
+			for i := range row {
+				row[i] = outT{Kind: "ok"}
+				if i < len(more.Om[k]) {
+					row[i] = more.Om[k][i]
+				} else if r.Chance(20) {
+					row[i] = outT{Kind: "err", E: r.Intn(maxErr)}
+				}
+			}
+			sg.Om = append(sg.Om, row)
+		}
+		h.Segs = append(h.Segs, sg)
+	}
+	return h
 }
 
 // ---------------------------------------------------------------- generation
@@ -519,7 +686,7 @@ func genCase(r *Rng) *caseT {
 // ---------------------------------------------------------------- driver
 
 func runC14(c *Ctx) {
-	c.Res.Rule = "a case is (writer configuration: wrappers around MultiLevelWriter or a single destination, per destination a wrapper chain of SyncWriter/FilteredLevelWriter/LevelWriterAdapter over an io.Writer or LevelWriter fake; events with level/message/field; outcome matrix ok|error value|short write per event and destination); observed = per logging call the ordered trace of destination calls (entry, level, bytes), ErrorHandler/stderr reports (error identity) and done. Bounded-exhaustive: all 3-outcome matrices for <=3 destinations x <=2 events (thorough: <=3 events) over 4 fixed kind assignments, the full filter-level x event-level grid; then seeded random (<=5 destinations, <=6 events, chains <=3). non-trivial = at least one reached destination fails and at least two destinations are configured; distinct by case text"
+	c.Res.Rule = "a case is (writer configuration: wrappers around MultiLevelWriter or a single destination, per destination a wrapper chain of SyncWriter/FilteredLevelWriter/LevelWriterAdapter over an io.Writer or LevelWriter fake; events with level/message/field; outcome matrix ok|error value|short write per event and destination); observed = per logging call the ordered trace of destination calls (entry, level, bytes), ErrorHandler/stderr reports (error identity) and done. Bounded-exhaustive: all 3-outcome matrices for <=3 destinations x <=2 events (thorough: <=3 events) over 4 fixed kind assignments, the full filter-level x event-level grid; then seeded random (<=5 destinations, <=6 events, chains <=3); retune histories: one writer constructed once and used over 2-4 segments, the exported Level field of its FilteredLevelWriters assigned between segments (directed grid: every ordered pair old/new level x six filter positions x events at all levels before and after; seeded random), each segment shipped as one case under the levels then in force. non-trivial = at least one reached destination fails and at least two destinations are configured; distinct by case text"
 	var err error
 	stderrFile, err = os.Create(c.Out + "/stderr_capture.txt")
 	if err != nil {
@@ -532,8 +699,16 @@ func runC14(c *Ctx) {
 	c.OpenShards("From Verif Require Import Base.Prelude Misc.Level Lts.Writers Harness.C14H.\nOpen Scope Z_scope.",
 		"(cfg * list event * list (list outcome)) * list (list action)", "mismatches c14_run c14_eqb", 250)
 
-	emit := func(cs *caseT, group string) {
-		obs := runCase(c, cs)
+	var emitObserved func(cs *caseT, obs [][]actT, group string)
+	emit := func(cs *caseT, group string) { emitObserved(cs, runCase(c, cs), group) }
+	emitHistory := func(h *histT, group string) {
+		cases, obss := runHistory(c, h)
+		for i, cs := range cases {
+			emitObserved(cs, obss[i], group)
+		}
+		c.Hist("history_segments", fmt.Sprint(len(h.Segs)))
+	}
+	emitObserved = func(cs *caseT, obs [][]actT, group string) {
 		failing := monitorCase(c, cs, obs)
 		term := caseTerm(cs, obs)
 		j := caseJSON(cs, obs)
@@ -640,9 +815,80 @@ func runC14(c *Ctx) {
 		emit(genCase(c.R.Fork()), "random")
 	}
 
-	// 5. the event is recycled also when the write fails (allocation monitor)
+	// 5. filter levels assigned at run time.  FilteredLevelWriter is used by pointer and Level is an
+	// exported field: "its level" is the value the field has when the event is written.  One writer
+	// is constructed, used, then a filter's Level is assigned and the writer is used again; every
+	// segment must behave like a writer constructed with the levels then in force.
+	// Directed grid: every ordered pair (old level, new level) x six places a filter can sit
+	// (every destination filtered - first / last / only destination; next to an unfiltered
+	// destination under a SyncWriter; around the whole MultiLevelWriter; without MultiLevelWriter),
+	// events at all eleven levels before and after the assignment.
+	retune := 0
+	allLevels := func(tag string, D int, failAt int) ([]evT, [][]outT) {
+		var evs []evT
+		var om [][]outT
+		for k, lv := range c14levels {
+			evs = append(evs, evT{Level: lv, Msg: fmt.Sprintf("%s%d", tag, k)})
+			row := make([]outT, D)
+			for i := range row {
+				row[i] = outT{Kind: "ok"}
+			}
+			if k == failAt && D > 0 {
+				row[k%D] = outT{Kind: "err", E: 7 + k}
+			}
+			om = append(om, row)
+		}
+		return evs, om
+	}
+	for ai, a := range c14levels {
+		for bi, b := range c14levels {
+			if a == b {
+				continue
+			}
+			type variant struct {
+				cfg cfgT
+				rt  retuneT
+			}
+			vs := []variant{
+				{cfgT{Kind: "multi", Handler: true, Wraps: []wrapT{}, Dests: []destT{F(a, "level"), F(127, "plain")}}, retuneT{0, 0, b}},
+				{cfgT{Kind: "multi", Handler: true, Wraps: []wrapT{}, Dests: []destT{F(127, "level"), F(9, "level"), F(a, "plain")}}, retuneT{2, 0, b}},
+				{cfgT{Kind: "multi", Handler: true, Wraps: []wrapT{}, Dests: []destT{F(a, "level")}}, retuneT{0, 0, b}},
+				{cfgT{Kind: "multi", Handler: true, Wraps: []wrapT{}, Dests: []destT{{Leaf: "level", Wraps: []wrapT{{Kind: "sync"}, {Kind: "filtered", Min: a}}}, L}}, retuneT{0, 1, b}},
+				{cfgT{Kind: "multi", Handler: true, Wraps: []wrapT{{Kind: "filtered", Min: a}}, Dests: []destT{L, P}}, retuneT{-1, 0, b}},
+				{cfgT{Kind: "single", Handler: true, Wraps: []wrapT{}, Dests: []destT{F(a, "level")}}, retuneT{0, 0, b}},
+			}
+			for vi, v := range vs {
+				if !c.Thorough() && vi >= 3 && (ai+bi+vi)%3 != 0 {
+					continue // the three all-filtered shapes for every pair; the other places for a third of the pairs each
+				}
+				D := len(v.cfg.Dests)
+				e0, o0 := allLevels("p", D, (ai+bi)%len(c14levels))
+				e1, o1 := allLevels("q", D, (ai+2*bi+vi)%len(c14levels))
+				h := &histT{Cfg: v.cfg, Segs: []segT{{Retunes: []retuneT{}, Evs: e0, Om: o0}, {Retunes: []retuneT{v.rt}, Evs: e1, Om: o1}}}
+				if (ai+bi+vi)%4 == 0 { // and back again
+					e2, o2 := allLevels("r", D, -1)
+					back := v.rt
+					back.Min = a
+					h.Segs = append(h.Segs, segT{Retunes: []retuneT{back}, Evs: e2, Om: o2})
+				}
+				emitHistory(h, "retune-grid")
+				retune++
+			}
+		}
+	}
+	nhist := 300
+	if c.Thorough() {
+		nhist = 5000
+	}
+	for i := 0; i < nhist; i++ {
+		emitHistory(genHistory(c.R.Fork()), "retune-random")
+		retune++
+	}
+	c.Res.ExtraCoverage["retune_histories"] = retune
+
+	// 6. the event is recycled also when the write fails (allocation monitor)
 	monitorRecycling(c)
 
-	// 6. handler histories: the handler logs itself; handler calls overlap
+	// 7. handler histories: the handler logs itself; handler calls overlap
 	monitorHandlerHistories(c)
 }
